@@ -692,6 +692,19 @@ pub fn directed_values() -> Vec<(&'static str, TVal)> {
         "id_extremes",
         Struct(vec![(i16::MAX, I8(1)), (i16::MIN, I8(2)), (i16::MAX, Bool(true)), (0, I8(3))]),
     ));
+    // a struct / a list of structs under the largest field ids: ids inside the nested
+    // struct start again from 0 (compact deltas are relative to the nested struct)
+    v.push((
+        "id_extremes_nested",
+        Struct(vec![
+            (32766, Struct(vec![(1, I8(1)), (2, I8(2)), (32767, I8(3))])),
+            (i16::MAX, Struct(vec![(1, I8(4)), (15, Struct(vec![(1, Bool(true))]))])),
+        ]),
+    ));
+    v.push((
+        "id_extremes_nested",
+        Struct(vec![(i16::MAX, List(TT::Struct, vec![Struct(vec![(1, I8(1))]), Struct(vec![(2, I64(5)), (3, Bool(false))])])), (i16::MAX, Map(TT::I8, TT::Struct, vec![(I8(1), Struct(vec![(7, I8(1))]))]))]),
+    ));
     for n in [0usize, 1, 14, 15, 16, 127, 128] {
         v.push((
             "list_sizes",
